@@ -547,9 +547,17 @@ class HomeKitConnection:
         # https://github.com/jlusiardi/homekit_python/issues/12
         # https://github.com/jlusiardi/homekit_python/issues/16
 
+        protocol = self.protocol
+
         async with self._concurrency_limit:
             if not self.protocol:
                 raise AccessoryDisconnectedError("Tried to send while not connected")
+            if self.protocol is not protocol:
+                # While this request was queued the connection was replaced.
+                # The new one may still be negotiating its secure session, so
+                # sending now would put a plaintext request in the middle of
+                # pair-verify.
+                raise AccessoryDisconnectedError("Connection was replaced before request could be sent")
             logger.debug("%s: raw request: %r", self.connected_host, request_bytes)
             resp = await self.protocol.send_bytes(request_bytes)
 
